@@ -18,7 +18,7 @@ m = {
         "guard": "CELERITAS_VERIF",
         "enable": "-DCELERITAS_VERIF=1 in CMAKE_CXX_FLAGS of the out-of-tree library builds under "
                   "/verif/build/<flavour>/celeritas (setup.sh) and on every harness compile line (check)",
-        "baseline_off_cmd": "cmake --build /repo/_build -j16 && ctest --test-dir /repo/_build -j8 --timeout 900",
+        "baseline_off_cmd": "cmake --build /repo/_build -j16 -- -k 0 ; ctest --test-dir /repo/_build -j8 --timeout 900",
         "source_commits": [h.split()[0] for h in reversed(hooks)],
         "add_only": True,
     },
